@@ -145,10 +145,10 @@ def forms() -> List[Form]:
                     params = list(ps) + [var] * (n - len(ps))
             res = overloads[0][2]
             F.append(Form(f'ctor:call {f}/{n}', n, (lambda f: lambda L: HplFunctionCall(f, tuple(L)))(f), params or [ANY] * n, res,
-                          children=lambda e: list(e.arguments), narrows=False, accept=accept()))
+                          children=lambda e: list(e.arguments), narrows=True, accept=accept()))
             if n == 1:
                 F.append(Form(f'callback:call {f}/1', 1, (lambda f: lambda L: T.function_call(f, L[0]))(f), params or [ANY], res,
-                              children=lambda e: list(e.arguments), narrows=False, accept=accept(), route='callback'))
+                              children=lambda e: list(e.arguments), narrows=True, accept=accept(), route='callback'))
     return F
 
 
